@@ -88,7 +88,7 @@ struct Case {
 static inline unsigned long widen_x(unsigned char b) { return b == 0xF0 ? 0x390 : b == 0xF1 ? 0x3B0 : b == 0xF2 ? 0xDF : b == 0xF3 ? 0xFB03 :
     b == 0xF4 ? 0x80000000UL : b == 0xF5 ? 0xC0000000UL : b == 0xF6 ? 0xFFFFFFFFUL : b == 0xF7 ? 0x7FFFFFFFUL : b; }     /* F4..F7: 32-bit elements around the sign bit */
 static inline unsigned long widen_e(unsigned char b, int w) { return w == 4 ? widen_x(b) : w == 2 ? (b == 0xF4 ? 0x8000UL : b == 0xF5 ? 0xC000UL : b == 0xF6 ? 0xFFFFUL : b == 0xF7 ? 0x7FFFUL : b) : b; }
-#define MAXE 320      /* max elements of an ordinary operand in the lattice */
+#define MAXE 640      /* max elements of an ordinary operand in the lattice */
 
 struct Ctx {
     const Fn *fn;
